@@ -1,4 +1,5 @@
-(* Reads one case per line (space separated non-negative ints), prints Model.run's answer. *)
+(* Reads one case per line (space separated non-negative ints), prints Model.run's answer.
+   Tail-recursive throughout so that long cases do not overflow the OCaml stack. *)
 open Model
 let rec pos_of_int n =
   if n = 1 then XH else if n land 1 = 0 then XO (pos_of_int (n lsr 1)) else XI (pos_of_int (n lsr 1))
@@ -10,8 +11,8 @@ let () =
   (try
      while true do
        let line = input_line stdin in
-       let toks = List.filter (fun s -> s <> "") (String.split_on_char ' ' line) in
-       let inp = List.map (fun s -> n_of_int (int_of_string s)) toks in
+       let toks = String.split_on_char ' ' line in
+       let inp = List.rev (List.fold_left (fun acc s -> if s = "" then acc else n_of_int (int_of_string s) :: acc) [] toks) in
        let out = run inp in
        Buffer.clear buf;
        List.iter (fun n -> Buffer.add_string buf (string_of_int (int_of_n n)); Buffer.add_char buf ' ') out;
